@@ -217,6 +217,25 @@ theorem leaves_index_are_terminal_nodes {ρ} (tree : Node ρ) :
       (by intro a b; simp only [Bool.or_eq_true, decide_eq_true_eq]; omega) (enumerateLeavesIndex tree)
     simpa [getLeavesIndex] using this
 
+/-- The boundary of the hypothesis `1 ≤ max_depth` of `depth_le_max_depth` below, stated and proved rather than
+left implicit: with `max_depth < 1` (the constructor's `assert max_depth` refuses 0 and None only; a negative value,
+or 0 given through `set_params`, reaches `fit`) every training history yields the root alone, at depth 1, with
+`n_nodes_ = 1` - so `tree_depth_ = 1 > max_depth` (the real code returns the same at -1, -5 and at 0 set through
+`set_params`: probe recorded in DESIGN 12.8).  The depth clause of the property is read over scikit-learn's domain
+`max_depth >= 1` (ASSUMPTIONS of `props/c10.py`); this theorem is why. -/
+theorem max_depth_below_one_gives_root_only {ρ} (cfg : Cfg) (nRows : Int) (p0 p1 : ρ → Rat)
+    (sa : SideStat) (pa : Plan ρ) (sb : SideStat) (pb : Plan ρ) (h : cfg.maxDepth < 1) :
+    ∃ tree nn, fit cfg (.mk nRows p0 p1 sa pa sb pb) = some (tree, nn) ∧ nodes tree = [tree] ∧ nn = 1 ∧
+      treeDepth tree = 1 ∧ cfg.maxDepth < treeDepth tree := by
+  have hg : depthGuard rootDepth cfg.maxDepth = true := by
+    simp only [depthGuard, rootDepth]; exact decide_eq_true (by omega)
+  refine ⟨⟨rootIndex, rootThreshold, rootDepth, p0, p1, none, none⟩, nNodes (depthGuardLast rootIndex), ?_, ?_, ?_, ?_, ?_⟩
+  · simp [fit, fitNode, hg]
+  · simp [nodes]
+  · simp [nNodes, depthGuardLast, rootIndex]
+  · simp [treeDepth, rootDepth]
+  · simp only [treeDepth, rootDepth]; omega
+
 /-- For every training history and `max_depth >= 1`: every node's depth is between 1 and `max_depth`, and
 `tree_depth_` is the largest of them, so the depth never exceeds `max_depth`. -/
 theorem depth_le_max_depth {ρ} (cfg : Cfg) (plan : Plan ρ) (tree : Node ρ) (nn : Int)
